@@ -49,8 +49,8 @@ type script struct {
 
 type world struct {
 	gw        *e2e.Gateway
-	infos     []*clusters.ClusterInfo  // every cluster of the world (for isolate)
-	h2        *httptest.Server // the SAME handler chain behind TLS + HTTP/2 (h2.go)
+	infos     []*clusters.ClusterInfo // every cluster of the world (for isolate)
+	h2        *httptest.Server        // the SAME handler chain behind TLS + HTTP/2 (h2.go)
 	h2client  *http.Client
 	ups       map[string]*e2e.Upstream // cluster -> its upstream
 	mu        sync.Mutex
